@@ -398,6 +398,7 @@ func c12(p *model.Prog, r *report.Result) {
 	c12r8As(p, r, "C12.R8")
 	c07r12(p, r, "C12.R9")
 	w5SizeCount(p, r, "C12.R10")
+	w6AvcSingle(p, r, "C12.R11")
 	c07r7As(p, r, "C12.R7")
 }
 
